@@ -196,8 +196,8 @@ Proof.
   - exists a, fr. cbn. rewrite app_nil_r. split; [reflexivity|]. split; [exact A|]. split; [reflexivity|]. split; [reflexivity|].
     split; [reflexivity|]. split; [exact Hfund|]. split; reflexivity.
   - inversion Hnd as [|? ? Hx Hnd']; subst. destruct (Hin x (or_introl eq_refl)) as [Hp Hn].
-    destruct (L_decl_top a fr pr rest ArgumentDecl x A (or_intror eq_refl) Hn) as (a1 & fr1 & H1 & A1 & E1 & E2 & E3 & E4 & E5 & E6).
-    { unfold pnames. apply in_app_iff. left. exact Hp. } { discriminate. } { intros _. rewrite Hfund. intros []. }
+    destruct (L_decl_top a fr pr rest ArgumentDecl x A (or_intror (or_introl eq_refl)) Hn) as (a1 & fr1 & H1 & A1 & E1 & E2 & E3 & E4 & E5 & E6).
+    { unfold pnames. apply in_app_iff. left. exact Hp. } { intros H. exfalso. apply H. reflexivity. } { intros _. rewrite Hfund. intros []. }
     assert (Hfund1 : fund fr1 = []).
     { destruct (fund fr1) as [|e t] eqn:Ef; [reflexivity|]. exfalso. specialize (E4 e (or_introl eq_refl)). rewrite Hfund in E4. exact E4. }
     destruct (IH a1 fr1 pr rest A1 Hnd') as (a' & fr' & H2 & A' & F1 & F2 & F3 & F4 & F5 & F6).
